@@ -18,25 +18,24 @@ TASKS_PER_CHILD = 200
 RULE = G.RULE
 EXHAUSTIVE_NOTE = G.EXHAUSTIVE_NOTE
 ASSUMPTIONS = G.ASSUMPTIONS
-TRUSTED = G.TRUSTED
-ALLOWED_AXIOMS = []
-LEVEL_TEXT = ('proof (partial): no_lost_wakeup, owner_can_finish, prompt, rescue_within_60, no_deadlock, retry_measure, bounded_work, maximal_trace_done_or_timer / _all_done, finite_work_then_done, ok_C05_sound + 4 converse theorems proved for all event '
-              'lists accepted by the model Cache.step (invariants CacheInv.Inv + CacheLive.LInv); termination under fair '
-              'scheduling is reduced to these and the last inference is left on paper; model tied to the code by '
-              'differential correspondence, promptness / rescue / no-hang decided on every observed trace by ok_C05')
-LEVEL_NOTE = ('Proved (closed under the global context): a waiter never waits for an event nobody will set; the owner\'s path '
-              'to its finally block waits only for the lock and the user computation and that block sets the event; once the '
-              'event is set every waiter\'s resume step is enabled and the clock cannot move first (same virtual tick, not '
-              '+60 s); a wait lasts at most 61440 ticks, the clock cannot jump over the deadline, the time-out step is enabled '
-              'and a caller that then finds a dead computing loop takes the key over; while a call on a live loop is unfinished '
-              'some non-life-cycle step is enabled.  NOT formalised: "a fair scheduler and a running clock produce a maximal trace" '
-              '(so "enabled" becomes "eventually happens" and maximal_trace_* applies), the property\'s assumption that each invocation ends or '
-              'is cancelled (IEnd is an environment event).  retry_measure (CacheRetry.v, ghost counters computed along the run): '
-              'retries of a caller <= ended invocations + its proxy results + closed loops + its time-outs, time-outs * 61440 <= now.  Converse theorems ok_C05_implies_ends_with_End0 / '
-              '_shutdown_answers / _prompt / _rescue (CacheMon5Spec.v) read the property off an accepted trace alone.  ok_C05_sound (CacheMon5.v): every '
-              'trace the model accepts satisfies the trace monitor (End 0, shutdown answers every started call, at every clock '
-              'move every pending call on a running loop is served by an invocation in progress on a running loop or is within '
-              '61440 ticks of the death of a loop that hosted its key).')
+TRUSTED = G.TRUSTED + ['Coq standard-library axiom Classical_Prop.classic (excluded middle): used only by the theorem '
+                       'fair_run_terminates; all other C05 theorems are closed under the global context']
+# only in fair_run_terminates (CacheFair.weak_clock_diverges).
+ALLOWED_AXIOMS = ['Classical_Prop.classic']   # standard-library axiom (excluded middle), used by fair_run_terminates only
+LEVEL_TEXT = ('proof: termination and promptness under explicitly stated fairness / environment hypotheses — run_terminates, '
+              'fair_run_terminates, fair_prompt over infinite accepted runs; finite_work_then_done, bounded_work, maximal_trace_*, '
+              'retry_measure, no_deadlock, no_lost_wakeup, owner_can_finish, prompt, rescue_within_60 over all accepted event '
+              'lists; ok_C05_sound and four converse theorems for the trace monitor; model tied to the code by differential '
+              'correspondence, promptness / rescue / no-hang decided on every observed trace by ok_C05')
+LEVEL_NOTE = ('18 theorems.  run_terminates (constructive): in every infinite accepted run whose environment ends or cancels every '
+              'invocation on a running loop (E1), whose clock diverges (E2) and whose life-cycle activity is finite (E3), every '
+              'started call on a loop that keeps running is eventually answered; fair_run_terminates: the same with E2 weakened '
+              'to weak fairness of the clock and library weak fairness as an explicit hypothesis (uses Classical_Prop.classic, the '
+              'only axiom; divergence of the clock is derived from bounded_work); fair_prompt: a waiter whose wait is over '
+              'resumes in the same virtual tick.  In the model the clock is urgent, so library fairness is carried by "the run is '
+              'infinite and its clock keeps moving"; finite stuck runs are covered by maximal_trace_done_or_timer.  What remains '
+              'ASSUMED about the real system: E1, E3 and that the OS scheduler / clock are weakly fair; virtual time only.  '
+              'The remaining theorems are as before (see props/C05.v header and notes/cache.md).')
 TECHNIQUE = G.TECHNIQUE
 
 corpus = G.corpus
